@@ -282,7 +282,16 @@ class LRI(dict):
             self._init_ll()
 
     def copy(self):
-        return self.__class__(max_size=self.max_size, values=self)
+        # walk the linked list (oldest to newest) under the lock, so
+        # the copy evicts in the same order, and neither the hit
+        # counts nor the ordering of this cache are disturbed
+        with self._lock:
+            items = []
+            link = self._anchor[NEXT]
+            while link is not self._anchor:
+                items.append((link[KEY], link[VALUE]))
+                link = link[NEXT]
+        return self.__class__(max_size=self.max_size, values=items)
 
     def setdefault(self, key, default=None):
         with self._lock:
